@@ -27,7 +27,72 @@ CLASSES = [            # (name, [(field, type)]); type in any | int | float | st
     ('B', [('p', 'int'), ('q', 'float'), ('r', 'str')]),
     ('C', [('items', 'list_int'), ('z', 'any')]),
     ('D', [('x', 'any'), ('y', 'any')]),      # same fields as A: only the class tells them apart
+    ('E', [('u', 'any'), ('w', 'any')]),      # `_on_bound` derives state (`_sig`) from the fields
+    ('F', [('a', 'float_ge0'), ('b', 'float_le0'), ('c', 'int_ge0'), ('d', 'int_le0')]),   # bounds exactly 0
 ]
+DERIVED = {4}                                 # classes with `_on_bound`-derived state
+# bounded numeric field types: base type, min_value, max_value
+BOUNDS = {'float_ge0': ('float', 0, None), 'float_le0': ('float', None, 0),
+          'int_ge0': ('int', 0, None), 'int_le0': ('int', None, 0)}
+
+
+def in_bounds(x, lo, hi):
+  """Every value the (value) template `x` can produce lies within [lo, hi] (None = unbounded)."""
+  k = x[0]
+  if k == 'const':
+    n = atom_num(x[1])
+    if n is None:
+      return True
+    return (lo is None or num_le([lo, 0], n)) and (hi is None or num_le(n, [hi, 0]))
+  if k == 'floatv':
+    return (lo is None or num_le([lo, 0], x[2])) and (hi is None or num_le(x[3], [hi, 0]))
+  if k == 'choice' and x[2]:
+    return all(in_bounds(c, lo, hi) for c in x[4])
+  return True
+
+
+def ok_b(x, lo, hi):
+  """Mirror of `okB` (lean/PgModel/HyperSpec.lean): the bounded numeric field accepts `x` at binding time."""
+  k = x[0]
+  if k == 'const':
+    return atom_num(x[1]) is not None and in_bounds(x, lo, hi)
+  if k == 'floatv':
+    return in_bounds(x, lo, hi)
+  if k == 'choice':
+    return bool(x[2]) and all(ok_b(c, lo, hi) for c in x[4])
+  return False
+
+
+def bound_slots(t, acc=None):
+  """[lo, hi, template] for every bounded numeric field in `t`."""
+  acc = [] if acc is None else acc
+  k = t[0]
+  if k == 'obj':
+    for c, (_, fty) in zip(t[3], CLASSES[t[1]][1]):
+      if fty in BOUNDS:
+        acc.append([BOUNDS[fty][1], BOUNDS[fty][2], c])
+  if k in ('dict', 'list', 'obj'):
+    for c in t[-1]:
+      bound_slots(c, acc)
+  elif k == 'choice':
+    for c in t[4]:
+      bound_slots(c, acc)
+  return acc
+
+
+def bounds_ok(t):
+  """No placeholder / constant bound to a bounded numeric field can produce a value outside it."""
+  k = t[0]
+  if k == 'obj':
+    for c, (_, fty) in zip(t[3], CLASSES[t[1]][1]):
+      if fty in BOUNDS and not in_bounds(c, BOUNDS[fty][1], BOUNDS[fty][2]):
+        return False
+    return all(bounds_ok(c) for c in t[3])
+  if k in ('dict', 'list'):
+    return all(bounds_ok(c) for c in t[-1])
+  if k == 'choice':
+    return all(bounds_ok(c) for c in t[4])
+  return True
 
 
 def kids_of(t):
@@ -126,6 +191,19 @@ def size_of_prim(p, W, cap):
   return rec(k, [])
 
 
+class _Extreme:
+  """Stands in for the PRNG: every float at its lower (0) / upper (1) bound, first / last candidates."""
+
+  def __init__(self, end):
+    self.end = end
+
+  def below(self, n):
+    return (n - 1) if self.end else 0
+
+  def sample(self, xs, k):
+    return xs[-k:] if self.end else xs[:k]
+
+
 def rand_space_dna(ps, W, rng):
   return norm(None, [rand_prim_dna(p, W, rng) for p in ps])
 
@@ -133,7 +211,7 @@ def rand_space_dna(ps, W, rng):
 def rand_prim_dna(p, W, rng):
   if p[0] == 'floatv':
     lo, hi = to_float(*p[2]), to_float(*p[3])
-    c = rng.below(5)
+    c = rng.below(5) if not isinstance(rng, _Extreme) else rng.end
     x = lo if c == 0 else hi if c == 1 else lo + (hi - lo) * (rng.below(1000) / 1000.0)
     x = min(max(x, lo), hi)
     return [['f'] + of_float(x), []]
@@ -398,6 +476,38 @@ class TmplGen:
       return ['floatv', self.fresh_tag(), of_float(lo + 0.1), of_float(lo + 0.1 + width * 0.7)]
     return ['floatv', self.fresh_tag(), [lo, 0], [lo + width, 0]]
 
+  def bounded(self, depth, ty):
+    """A (mostly) admissible template for a numeric field whose bound is exactly zero; ~12 % straddle
+    the bound (must be rejected when the template is constructed)."""
+    r = self.rng
+    base, lo, _ = BOUNDS[ty]
+    sign = 1 if lo == 0 else -1
+    straddle = r.chance(0.05)
+    if depth > 0 and r.chance(0.3):
+      return self.choice(depth, ty, True)
+    u = self.fresh()
+    if base == 'int':
+      if straddle:
+        return ['const', ['int', -sign * u]]
+      return ['const', ['int', 0 if r.chance(0.25) else sign * u]]
+    k = r.below(10)
+    w = r.choice([0, 1, 1, 2])
+    if k < 6:
+      if straddle:
+        if sign > 0:
+          a, b = -r.choice([0.5, 1.0, 3.0]), r.choice([0.0, 0.5, 2.0])
+        else:
+          a, b = -r.choice([0.0, 0.5, 2.0]), r.choice([0.5, 1.0, 3.0])
+        return ['floatv', self.fresh_tag(), of_float(a), of_float(b)]
+      if r.chance(0.35):
+        a, b = (0, w) if sign > 0 else (-w, 0)              # touches the bound
+      else:
+        a, b = (3 * u, 3 * u + w) if sign > 0 else (-3 * u - w, -3 * u)
+      return ['floatv', self.fresh_tag(), of_float(float(a)), of_float(float(b))]
+    if straddle:
+      return ['const', ['flt'] + of_float(-sign * (u + 0.5))]
+    return ['const', ['flt'] + of_float(0.0 if r.chance(0.25) else sign * (u + 0.5))]
+
   def choice(self, depth, ty, one):
     r = self.rng
     n = r.randint(1, 4) if r.chance(0.15) else r.randint(2, 4)
@@ -421,6 +531,8 @@ class TmplGen:
     r = self.rng
     if self.sloppy and ty != 'any' and r.chance(0.3):
       ty = 'any'                                   # (probably) ill-typed: binding-time validation
+    if ty in BOUNDS:
+      return self.bounded(depth, ty)
     if ty in ('int', 'str'):
       if depth > 0 and r.chance(0.45):
         return self.choice(depth, ty, True)
@@ -442,8 +554,8 @@ class TmplGen:
     # any
     if depth <= 0:
       return self.floatv() if r.chance(0.07) else self.const('any')
-    k = r.weighted([(3, 'const'), (3, 'dict'), (2, 'list'), (2, 'A'), (1, 'B'), (1, 'C'), (1, 'D'),
-                    (5, 'oneof'), (3, 'manyof'), (1, 'floatv')])
+    k = r.weighted([(3, 'const'), (3, 'dict'), (2, 'list'), (2, 'A'), (1, 'B'), (1, 'C'), (1, 'D'), (2, 'E'),
+                    (1, 'F'), (5, 'oneof'), (3, 'manyof'), (1, 'floatv')])
     if k == 'const':
       return self.const('any')
     if k == 'floatv':
@@ -459,7 +571,7 @@ class TmplGen:
       return ['dict', keys, [self.gen(depth - 1) for _ in keys]]
     if k == 'list':
       return ['list', [self.gen(depth - 1) for _ in range(r.randint(0, 3))]]
-    ci = 'ABCD'.index(k)
+    ci = 'ABCDEF'.index(k)
     fields = CLASSES[ci][1]
     return ['obj', ci, [f for f, _ in fields], [self.gen(depth - 1, fty) for _, fty in fields]]
 
@@ -473,7 +585,7 @@ class TmplGen:
     elif k < 6:
       t = ['list', [self.gen(depth) for _ in range(r.randint(1, 3))]]
     elif k < 8:
-      ci = r.below(4)
+      ci = r.below(6)
       fields = CLASSES[ci][1]
       t = ['obj', ci, [f for f, _ in fields], [self.gen(depth, fty) for _, fty in fields]]
     else:
@@ -486,7 +598,7 @@ def int_in_float_slot(t, ty='any'):
   the JSON form would no longer describe what pyglove holds."""
   k = t[0]
   if k == 'const':
-    return ty == 'float' and t[1][0] == 'int'
+    return ty.startswith('float') and t[1][0] == 'int'
   if k == 'obj':
     return any(int_in_float_slot(c, fty) for c, (_, fty) in zip(t[3], CLASSES[t[1]][1]))
   if k in ('dict', 'list'):
@@ -530,14 +642,47 @@ def _setup_pg():
   import pyglove as pg
   specs = {'any': lambda: pg.typing.Any(), 'int': lambda: pg.typing.Int(),
            'float': lambda: pg.typing.Float(), 'str': lambda: pg.typing.Str(),
-           'list_int': lambda: pg.typing.List(pg.typing.Int())}
+           'list_int': lambda: pg.typing.List(pg.typing.Int()),
+           'float_ge0': lambda: pg.typing.Float(min_value=0.0), 'float_le0': lambda: pg.typing.Float(max_value=0.0),
+           'int_ge0': lambda: pg.typing.Int(min_value=0), 'int_le0': lambda: pg.typing.Int(max_value=0)}
   classes = []
-  for name, fields in CLASSES:
-    cls = pg.members([(f, specs[ty]()) for f, ty in fields])(
-        type('C13%s' % name, (pg.Object,), {'__module__': 'harness.c13', '__qualname__': 'C13%s' % name}))
+  for ci, (name, fields) in enumerate(CLASSES):
+    body = {'__module__': 'harness.c13', '__qualname__': 'C13%s' % name}
+    if ci in DERIVED:
+      def _on_bound(self, _fields=[f for f, _ in fields]):
+        pg.Object._on_bound(self)
+        self._sig = derived_sig(self, _fields)        # state derived from the (current) field values
+      body['_on_bound'] = _on_bound
+    cls = pg.members([(f, specs[ty]()) for f, ty in fields])(type('C13%s' % name, (pg.Object,), body))
     classes.append(cls)
   _PG.update(pg=pg, classes=classes)
   return _PG
+
+
+def derived_sig(obj, fields):
+  pg = _PG['pg'] if _PG else __import__('pyglove')
+  return '/'.join(pg.format(obj.sym_getattr(f), compact=True) for f in fields)
+
+
+def stale_derived(v, path=''):
+  """Paths of objects whose `_on_bound`-derived state does not reflect their current fields."""
+  P = _setup_pg()
+  pg = P['pg']
+  out = []
+  if isinstance(v, pg.Object):
+    for ci in DERIVED:
+      if type(v) is P['classes'][ci]:
+        if v._sig != derived_sig(v, [f for f, _ in CLASSES[ci][1]]):
+          out.append(path or '<root>')
+    for k, x in v.sym_items():
+      out += stale_derived(x, '%s.%s' % (path, k))
+  elif isinstance(v, dict):
+    for k, x in (v.sym_items() if isinstance(v, pg.Dict) else v.items()):
+      out += stale_derived(x, '%s.%s' % (path, k))
+  elif isinstance(v, list):
+    for i, x in enumerate(v):
+      out += stale_derived(x, '%s[%d]' % (path, i))
+  return out
 
 
 def atom_to_py(a):
@@ -670,6 +815,7 @@ def err_name(e):
 
 
 ENUM_LIMIT_QUICK = 40
+STAGE2_LIMIT = 200
 ENUM_LIMIT_THOROUGH = 120
 
 
@@ -725,6 +871,7 @@ class C13(Prop):
       case['bad_dnas'] = extra
     else:
       ds = [rand_space_dna(ps, W, rng) for _ in range(6 if tier == 'quick' else 12)]
+      ds += [rand_space_dna(ps, W, _Extreme(0)), rand_space_dna(ps, W, _Extreme(1))]   # all bounds touched
       ds += [mutate_dna(d, rng) for d in ds[:3]]
       case['dnas'] = ds
       case['bad_dnas'] = []
@@ -741,7 +888,8 @@ class C13(Prop):
 
   def model_request(self, case):
     dnas = case['dnas']
-    req = {'tmpl': case['tmpl'], 'where': case['where'], 'values': case.get('values', [])}
+    req = {'tmpl': case['tmpl'], 'where': case['where'], 'values': case.get('values', []),
+           'stage2_limit': STAGE2_LIMIT, 'slots': bound_slots(case['tmpl'])}
     if dnas == 'all':
       req['dnas'] = 'all'
       req['bad_dnas'] = case.get('bad_dnas', [])
@@ -802,6 +950,11 @@ class C13(Prop):
         check_unchanged('decode')
         rec['dec'] = ['ok', of_pg(v)]
         o['deterministic'] = bool(pg.is_deterministic(v))
+        o['stale'] = stale_derived(v)
+        fresh = to_pg(rec['dec'][1])              # the same value, constructed from scratch
+        o['fresh_equal'] = bool(pg.eq(v, fresh)) and bool(pg.eq(fresh, v))
+        if W is not None:
+          rec['stage2'], o['stage2'] = self.stage2(v, rec['dec'][1], case['tmpl'])
         v2 = t.decode(dna)
         o['dec2_equal'] = bool(pg.eq(v, v2)) and of_pg(v2) == rec['dec'][1]
         try:
@@ -826,8 +979,11 @@ class C13(Prop):
         _no_timeout()
         rec['dec'] = ['err']
         rec['enc'] = None
+        rec.pop('stage2', None)
         o['dec_error'] = err_name(e)
         check_unchanged('failed decode')
+      if W is not None:
+        rec.setdefault('stage2', None)
       model['dnas'].append(rec)
       per.append(o)
     obs['per_dna'] = per
@@ -879,7 +1035,55 @@ class C13(Prop):
     obs['n_all'] = n_all
     return {'construct': 'ok', 'model': model, 'obs': obs}
 
+  def stage2(self, v, vj, tj):
+    """A partially decoded value used as a template for the rest (no filter)."""
+    import itertools
+    pg = _setup_pg()['pg']
+    if isinstance(v, list) and not isinstance(v, pg.List):
+      # a root-level manyof decodes to a plain Python list; plain containers are not templates
+      # (pg.template([pg.oneof(..)]).decode raises AttributeError on the unchanged tree): wrap it
+      v = pg.List(v)
+    t2 = pg.template(v)
+    spec2 = t2.dna_spec()
+    size = None if spec2.space_size < 0 else spec2.space_size
+    m = {'spec': spec_of_pg(spec2), 'size': size, 'decs': []}
+    o = {'problems': []}
+    fresh_spec = spec_of_pg(pg.template(to_pg(vj)).dna_spec())
+    if fresh_spec != m['spec']:
+      o['problems'].append('stale-template: dna_spec of the partial value differs from the dna_spec of an equal, '
+                           'freshly constructed value')
+    if size is not None and size <= STAGE2_LIMIT:
+      dnas2 = [pg.DNA(None)] if t2.is_constant else list(itertools.islice(spec2.iter_dna(), 4))
+      for d in dnas2:
+        d = d.clone(deep=True)
+        try:
+          v2 = t2.decode(d)
+          v2j = of_pg(v2)
+          m['decs'].append(['ok', v2j])
+          if all_tags(v2j) or not pg.is_deterministic(v2):
+            o['problems'].append('placeholder-left after the second stage')
+          if not shape_ok(vj, v2j, None) or not shape_ok(tj, v2j, None):
+            o['problems'].append('shape: second-stage value %s' % json.dumps(v2j)[:200])
+          if stale_derived(v2):
+            o['problems'].append('derived-state-stale after the second stage')
+        except Exception as e:      # pylint: disable=broad-except
+          _no_timeout()
+          m['decs'].append(['err'])
+          o['problems'].append('second-stage decode of valid DNA %r raised %s' % (d, err_name(e)))
+      if not t2.is_constant and size <= 30:
+        try:
+          n = len(list(pg.iter(v)))
+          if n != size:
+            o['problems'].append('second-stage pg.iter yields %d values, space_size %d' % (n, size))
+        except Exception as e:      # pylint: disable=broad-except
+          _no_timeout()
+          o['problems'].append('second-stage pg.iter raised %s' % err_name(e))
+    return m, o
+
   def compare(self, case, impl_out, model_out):
+    want = [ok_b(c, lo, hi) for lo, hi, c in bound_slots(case['tmpl'])]
+    if model_out.get('slots') != want:
+      return 'okB: harness=%s model=%s' % (want, model_out.get('slots'))
     if impl_out.get('construct') != 'ok':
       return None
     a = impl_out['model']
@@ -909,6 +1113,10 @@ class C13(Prop):
       return None
     t, W = case['tmpl'], case['where']
     obs, model = out['obs'], out['model']
+    if not bounds_ok(t):
+      return {'signature': 'out-of-range-placeholder-accepted',
+              'what': 'a placeholder / constant whose values exceed the bounds of the field it is bound to was '
+                      'accepted at construction (some valid DNA then decodes to a value the field spec rejects)'}
     if not obs['unchanged']:
       return {'signature': 'template-modified', 'what': '; '.join(obs['notes'][:3])}
     distinct = head_distinct(t, W)
@@ -928,6 +1136,17 @@ class C13(Prop):
                 % (d, json.dumps(v)[:300])}
       if not o['dec2_equal']:
         return {'signature': 'decode-not-deterministic', 'what': 'two decodes of %s differ' % d}
+      if o['stale']:
+        return {'signature': 'derived-state-stale',
+                'what': 'decode(%s): the `_on_bound`-derived state of %s still reflects the template, not the '
+                        'decoded fields' % (d, o['stale'][:3])}
+      if not o['fresh_equal']:
+        return {'signature': 'decoded-differs-from-fresh-object',
+                'what': 'decode(%s) is not pg.eq to the same value constructed from scratch' % d}
+      if o.get('stage2') and o['stage2']['problems']:
+        p0 = o['stage2']['problems'][0]
+        return {'signature': 'two-stage:' + p0.split(':')[0].split(' ')[0],
+                'what': 'decode(%s) under the filter, then used as a template: %s' % (d, '; '.join(o['stage2']['problems'][:3]))}
       if not o['materialize_equal']:
         return {'signature': 'materialize-differs', 'what': 'pg.materialize differs from decode for %s (%s)'
                 % (d, o.get('materialize_error'))}
@@ -962,6 +1181,8 @@ class C13(Prop):
       h.append('has:' + k)
     h.append('where:' + ('none' if W is None else 'subset'))
     h.append('dnas:' + ('all' if case['dnas'] == 'all' else 'sampled'))
+    if not bounds_ok(t):
+      h.append('straddles-zero-bound')
     h.append('head-distinct:%s' % head_distinct(t, W))
     if out.get('construct') != 'ok':
       return h
@@ -969,6 +1190,10 @@ class C13(Prop):
     h.append('prims:%s' % min(m['count'], 5))
     h.append('size:' + ('inf' if m['size'] is None else '1' if m['size'] == 1 else '<=10' if m['size'] <= 10
                         else '<=100' if m['size'] <= 100 else '>100'))
+    if any(r.get('stage2') and r['stage2']['decs'] for r in m['dnas']):
+      h.append('two-stage-decoded')
+    if any(r.get('stage2') and r['stage2']['spec'] != ['space', []] for r in m['dnas']):
+      h.append('two-stage-nonconstant')
     nv = sum(1 for r in m['dnas'] if r['valid'])
     h.append('valid-dnas:%s' % ('0' if nv == 0 else '1-5' if nv <= 5 else '6+'))
     if any(not r['valid'] for r in m['dnas']):
